@@ -6,6 +6,7 @@ import ConfModel.Lemmas.WireChecks
 import ConfModel.Lemmas.ConnectJson
 import ConfModel.Lemmas.BinMeta
 import ConfModel.Model.Capture
+import ConfModel.Model.Session
 import ConfModel.Generated.C13Facts
 import ConfModel.Spec.ContentCoding
 namespace ConfModel.Props.C13
@@ -1029,5 +1030,137 @@ theorem demand_cases (applied : Nat) (enc : Option String) :
   simp [payloadReachesExaminer]
 
 end Coding
+
+/-! ## Histories of calls: the examination of call k is a function of response k only
+
+`Model/Session.lean`: the glue around one call (`withWireCapture` - `wireReader` -
+`examineWireDetails`) with the state the process keeps between calls as a parameter.  The code as
+it is keeps nothing (`fresh`).  Whatever the examiner (`examine`, arbitrary - the examiners of the
+other sections, the decompressor's failure to read a body to its end included: it returns the
+unread rest) and whatever the history, the feedback of a call is the feedback of the same
+response as the only call. -/
+section Histories
+open ConfModel.Session
+
+/-- Any glue whose reachable states hand out EMPTY buffers is history independent. -/
+theorem session_history_independent {S R F : Type} (g : Glue S) (inv : S → Prop) (hg : Clean g inv)
+    (examine : R → Capture.Bytes → F × Capture.Bytes) (s : S) (hs : inv s)
+    (calls : List (R × List Capture.Bytes)) :
+    Session.run g examine s calls = calls.map (alone examine) := by
+  induction calls generalizing s with
+  | nil => rfl
+  | cons c t ih =>
+    obtain ⟨hb, hr⟩ := hg s hs
+    have hbuf : (c.2.foldl Capture.read { buf := (g.acquire s).1, delivered := [] }).buf = c.2.flatten := by
+      rw [(capture_foldl c.2 _).1, hb]; rfl
+    simp only [Session.run, Session.call, List.map_cons, hbuf]
+    rw [ih _ (hr _)]
+    rfl
+
+/-- **The code as it is** (a new buffer per call): for every examiner and every history, the
+feedback of the calls is the examiner's feedback on each response alone. -/
+theorem session_fresh {R F : Type} (examine : R → Capture.Bytes → F × Capture.Bytes)
+    (calls : List (R × List Capture.Bytes)) :
+    Session.run fresh examine () calls = calls.map (alone examine) :=
+  session_history_independent fresh (fun _ => True)
+    (fun _ _ => ⟨rfl, fun _ => trivial⟩) examine () trivial calls
+
+/-- … call by call: what precedes and what follows a call does not matter. -/
+theorem session_call_k {R F : Type} (examine : R → Capture.Bytes → F × Capture.Bytes)
+    (pre post : List (R × List Capture.Bytes)) (c : R × List Capture.Bytes) :
+    (Session.run fresh examine () (pre ++ c :: post))[pre.length]? = some (alone examine c) := by
+  rw [session_fresh]
+  simp
+
+/-- **Well-formed ⇒ silent regardless of history**: if the examiner is silent on every
+well-formed response examined alone, a well-formed response is silent after any history. -/
+theorem session_wellformed_silent {R F : Type} (examine : R → Capture.Bytes → F × Capture.Bytes)
+    (wf : R × List Capture.Bytes → Prop) (silent : F → Prop)
+    (h : ∀ c, wf c → silent (alone examine c))
+    (pre post : List (R × List Capture.Bytes)) (c : R × List Capture.Bytes) (hc : wf c) :
+    ∃ fb, (Session.run fresh examine () (pre ++ c :: post))[pre.length]? = some fb ∧ silent fb :=
+  ⟨_, session_call_k examine pre post c, h c hc⟩
+
+/-- a pool that resets its buffers is history independent too (any state: a list of empty buffers) -/
+theorem session_pooled_reset {R F : Type} (examine : R → Capture.Bytes → F × Capture.Bytes)
+    (calls : List (R × List Capture.Bytes)) :
+    Session.run pooledReset examine [] calls = calls.map (alone examine) := by
+  refine session_history_independent pooledReset (fun s => ∀ b ∈ s, b = []) ?_ examine [] (by simp) calls
+  intro s hs
+  cases s with
+  | nil => exact ⟨rfl, fun _ => by simp [pooledReset]⟩
+  | cons b t =>
+    refine ⟨hs b (by simp), fun _ => ?_⟩
+    intro x hx
+    simp only [pooledReset, List.mem_cons] at hx
+    rcases hx with rfl | hx
+    · rfl
+    · exact hs x (by simp [hx])
+
+/-- toy examiner of the witness: a decodable response (`true`) is read to its end and the
+feedback is what was read; an undecodable one (`false`) is not read at all -/
+def toyExamine (decodable : Bool) (buf : Capture.Bytes) : Capture.Bytes × Capture.Bytes :=
+  if decodable then (buf, []) else ([], buf)
+
+example : Session.run fresh toyExamine () [(false, [[1, 2]]), (true, [[3]])] = [[], [3]] := by decide
+
+/-- Non-vacuity / discriminating witness: buffers recycled WITHOUT a reset make the feedback of a
+call depend on the call before it (the unread body of an undecodable response is examined with
+the next response); with a reset, or with a new buffer per call, it does not. -/
+theorem pooled_session_witness :
+    Session.run pooled toyExamine [] [(false, [[1, 2]]), (true, [[3]])] = [[], [1, 2, 3]] ∧
+    Session.run pooledReset toyExamine [] [(false, [[1, 2]]), (true, [[3]])] = [[], [3]] ∧
+    Session.run fresh toyExamine () [(false, [[1, 2]]), (true, [[3]])] = [[], [3]] ∧
+    [(false, [[1, 2]]), ((true, [[3]]) : Bool × List Capture.Bytes)].map (alone toyExamine) = [[], [3]] := by
+  decide
+
+end Histories
+
+/-! ## Trailers-Only responses: announced trailer names are not trailers -/
+section TrailersOnly
+
+/-- Names announced in a `Trailer:` header but never sent (keys without values in
+`Response.Trailer`) do not change whether a response is Trailers-Only - wherever they stand. -/
+theorem trailers_only_ignores_announced (traceErr bodyData : Bool) (names names' : List Bytes) (tr : Hdrs) :
+    isTrailersOnly traceErr bodyData (announcedOnly names ++ tr ++ announcedOnly names') =
+      isTrailersOnly traceErr bodyData tr := by
+  have h : ∀ ns : List Bytes, (announcedOnly ns).all (fun kv => kv.2.isEmpty) = true := by
+    intro ns; simp [announcedOnly]
+  simp [isTrailersOnly, List.all_append, h]
+
+/-- Trailers-Only exactly when no error, no body message and no trailer key has a value. -/
+theorem trailers_only_iff (traceErr bodyData : Bool) (tr : Hdrs) :
+    isTrailersOnly traceErr bodyData tr = true ↔
+      traceErr = false ∧ bodyData = false ∧ ∀ kv ∈ tr, kv.2 = [] := by
+  simp [isTrailersOnly, List.isEmpty_iff]
+  constructor
+  · rintro ⟨⟨h1, h2⟩, h3⟩; exact ⟨h1, h3, h2⟩
+  · rintro ⟨h1, h3, h2⟩; exact ⟨⟨h1, h2⟩, h3⟩
+
+/-- A gRPC / gRPC-Web response without body messages and without sent trailers has its status
+examined in the HTTP HEADERS whatever trailer names it announced. -/
+theorem announced_only_examines_headers (names : List Bytes) :
+    statusSource "application/grpc" false false (announcedOnly names) = .headers ∧
+    statusSource "application/grpc+proto" false false (announcedOnly names) = .headers ∧
+    statusSource "application/grpc-web+proto" false false (announcedOnly names) = .headers := by
+  have h := trailers_only_ignores_announced false false names [] []
+  simp only [List.append_nil, announcedOnly, List.map_nil] at h
+  have h0 : isTrailersOnly false false [] = true := by decide
+  have hp1 : ("application/grpc-web".toList.isPrefixOf "application/grpc".toList) = false := by decide
+  have hp2 : ("application/grpc".toList.isPrefixOf "application/grpc".toList) = true := by decide
+  have hp3 : ("application/grpc-web".toList.isPrefixOf "application/grpc+proto".toList) = false := by decide
+  have hp4 : ("application/grpc".toList.isPrefixOf "application/grpc+proto".toList) = true := by decide
+  have hp5 : ("application/grpc-web".toList.isPrefixOf "application/grpc-web+proto".toList) = true := by decide
+  simp only [statusSource, announcedOnly, h, h0, hp1, hp2, hp3, hp4, hp5]
+  simp
+
+/-- discriminating witness: counting KEYS instead of values turns an announcing Trailers-Only
+response into one whose (empty) trailers are examined -/
+theorem announced_trailers_witness :
+    isTrailersOnly false false (announcedOnly [bs "Grpc-Status"]) = true ∧
+    isTrailersOnlyByKeys false false (announcedOnly [bs "Grpc-Status"]) = false ∧
+    isTrailersOnly false false [(bs "Grpc-Status", [bs "0"])] = false := by decide
+
+end TrailersOnly
 
 end ConfModel.Props.C13
